@@ -520,19 +520,55 @@ func TestVerifDefaultIndependence(t *testing.T) {
 	}
 	groups := map[string][]shape{
 		"[1,2]": {
-			{"[]int", func() any { return &struct{ F []int `json:"f,default=[1,2]"` }{} }},
-			{"[]string", func() any { return &struct{ F []string `json:"f,default=[1,2]"` }{} }},
-			{"[]float64", func() any { return &struct{ F []float64 `json:"f,default=[1,2]"` }{} }},
-			{"[]int8", func() any { return &struct{ F []int8 `json:"f,default=[1,2]"` }{} }},
-			{"[]*int", func() any { return &struct{ F []*int `json:"f,default=[1,2]"` }{} }},
+			{"[]int", func() any {
+				return &struct {
+					F []int `json:"f,default=[1,2]"`
+				}{}
+			}},
+			{"[]string", func() any {
+				return &struct {
+					F []string `json:"f,default=[1,2]"`
+				}{}
+			}},
+			{"[]float64", func() any {
+				return &struct {
+					F []float64 `json:"f,default=[1,2]"`
+				}{}
+			}},
+			{"[]int8", func() any {
+				return &struct {
+					F []int8 `json:"f,default=[1,2]"`
+				}{}
+			}},
+			{"[]*int", func() any {
+				return &struct {
+					F []*int `json:"f,default=[1,2]"`
+				}{}
+			}},
 		},
 		"[true,false]": {
-			{"[]bool", func() any { return &struct{ F []bool `json:"f,default=[true,false]"` }{} }},
-			{"[]string", func() any { return &struct{ F []string `json:"f,default=[true,false]"` }{} }},
+			{"[]bool", func() any {
+				return &struct {
+					F []bool `json:"f,default=[true,false]"`
+				}{}
+			}},
+			{"[]string", func() any {
+				return &struct {
+					F []string `json:"f,default=[true,false]"`
+				}{}
+			}},
 		},
 		"[a,b]": {
-			{"[]string", func() any { return &struct{ F []string `json:"f,default=[a,b]"` }{} }},
-			{"[]int", func() any { return &struct{ F []int `json:"f,default=[a,b]"` }{} }},
+			{"[]string", func() any {
+				return &struct {
+					F []string `json:"f,default=[a,b]"`
+				}{}
+			}},
+			{"[]int", func() any {
+				return &struct {
+					F []int `json:"f,default=[a,b]"`
+				}{}
+			}},
 		},
 	}
 	reset := func() {
@@ -663,5 +699,91 @@ func TestVerifRequiredAcrossTagKeys(t *testing.T) {
 		}
 	}
 	reset()
+	c.Done()
+}
+
+// inherit: a nested member takes the enclosing level's value only when its own level does not
+// mention the key; what its own level says - a value or an explicit null - is what it gets.
+func TestVerifInherit(t *testing.T) {
+	defer vrt.WriteReport()
+	if !vrt.Shard(2) {
+		return
+	}
+	c := vrt.NewCases("unmarshal/inherit")
+	type innerReq struct {
+		Host string `json:"host,inherit"`
+	}
+	type innerOpt struct {
+		Host string `json:"host,optional,inherit"`
+	}
+	type outerReq struct {
+		Host string   `json:"host,optional"`
+		In   innerReq `json:"in"`
+	}
+	type outerOpt struct {
+		Host string   `json:"host,optional"`
+		In   innerOpt `json:"in"`
+	}
+	for _, optional := range []bool{false, true} {
+		for _, parent := range []string{"<absent>", `"p"`, "null"} {
+			for _, child := range []string{"<absent>", `"c"`, "null", `""`} {
+				var parts []string
+				if parent != "<absent>" {
+					parts = append(parts, `"host":`+parent)
+				}
+				in := "{}"
+				if child != "<absent>" {
+					in = `{"host":` + child + `}`
+				}
+				parts = append(parts, `"in":`+in)
+				doc := "{" + strings.Join(parts, ",") + "}"
+				for _, via := range []string{"json", "yaml"} {
+					var got string
+					var err error
+					var pan any
+					func() {
+						defer func() { pan = recover() }()
+						run := UnmarshalJsonBytes
+						if via == "yaml" {
+							run = UnmarshalYamlBytes
+						}
+						if optional {
+							var v outerOpt
+							err = run([]byte(doc), &v)
+							got = v.In.Host
+						} else {
+							var v outerReq
+							err = run([]byte(doc), &v)
+							got = v.In.Host
+						}
+					}()
+					name := fmt.Sprintf("optional=%v doc=%s via=%s", optional, doc, via)
+					c.Eval(fmt.Sprintf("optional=%v parent=%s child=%s via=%s err=%v", optional, parent, child, via, err != nil), func() any {
+						return map[string]any{"doc": doc, "via": via, "optional": optional, "err": fmt.Sprint(err), "inner_host": got}
+					})
+					if pan != nil {
+						c.Violation(name, "panic", fmt.Sprint(pan))
+						continue
+					}
+					if err != nil {
+						continue // failing is always allowed
+					}
+					want := ""
+					switch {
+					case child == `"c"`:
+						want = "c"
+					case child == "<absent>" && parent == `"p"`:
+						want = "p"
+					case child == "<absent>" && !optional:
+						c.Violation(name, "required", fmt.Sprintf("the member is required, mentioned at neither level, and yet accepted (= %q)", got))
+						continue
+					}
+					if got != want {
+						c.Violation(name, "inherit", fmt.Sprintf("the nested member = %q, want %q (its own level says %s, the enclosing level %s)", got, want, child, parent))
+					}
+				}
+			}
+		}
+	}
 	c.Done()
 }
